@@ -341,6 +341,62 @@ static void run_sparse(Cur& c, std::ostream& o)
   o << " U " << v.used_elements();
 }
 
+// svs <b> <size> <n> (w idx val*max(b,1) | r idx | f v | u | m maxabs|minabs|max|min)*n
+//   a script of member calls on one SparseVector (b = 0) / SparseVectorBlocked<b>: writes, element reads,
+//   format, used_elements(), min/max members in any order; output: the results of r/u/m in order, then the dense
+//   read-out and used_elements() as for sv/svb
+template<typename SV_, int b_>
+static void run_sparse_script(Cur& c, std::ostream& o)
+{
+  Index size = c.idx();
+  std::size_t n = c.idx();
+  SV_ v(size);
+  std::vector<Q> res;
+  for(std::size_t k = 0; k < n; ++k)
+  {
+    std::string what = c.str();
+    if(what == "w")
+    {
+      Index idx = c.idx();
+      if constexpr(b_ == 0)
+        v(idx, Q::parse(c.str()));
+      else
+      {
+        Tiny::Vector<Q, (b_ > 0 ? b_ : 1)> t;
+        for(int j = 0; j < b_; ++j) t[j] = Q::parse(c.str());
+        v(idx, t);
+      }
+    }
+    else if(what == "r")
+    {
+      Index idx = c.idx();
+      if constexpr(b_ == 0) res.push_back(v(idx));
+      else { auto t = v(idx); for(int j = 0; j < b_; ++j) res.push_back(t[j]); }
+    }
+    else if(what == "f") v.format(Q::parse(c.str()));
+    else if(what == "u") res.push_back(Q((unsigned long)v.used_elements()));
+    else if(what == "m")
+    {
+      std::string kind = c.str();
+      if(kind == "maxabs") res.push_back(v.max_abs_element());
+      else if(kind == "minabs") res.push_back(v.min_abs_element());
+      else if(kind == "max") res.push_back(v.max_element());
+      else if(kind == "min") res.push_back(v.min_element());
+      else { o << "BAD-OP"; return; }
+    }
+    else { o << "BAD-OP"; return; }
+  }
+  std::vector<Q> f;
+  for(Index i = 0; i < size; ++i)
+  {
+    if constexpr(b_ == 0) f.push_back(v(i));
+    else { auto t = v(i); for(int j = 0; j < b_; ++j) f.push_back(t[j]); }
+  }
+  o << "R "; show_qlist(o, res);
+  o << " 1 "; show_qlist(o, f);
+  o << " U " << v.used_elements();
+}
+
 static void handle(const verif::Tokens& t, std::ostream& o)
 {
   Cur c(t);
@@ -353,6 +409,16 @@ static void handle(const verif::Tokens& t, std::ostream& o)
     if(b == 1) run_sparse<SparseVectorBlocked<Q, Index, 1>, 1>(c, o);
     else if(b == 2) run_sparse<SparseVectorBlocked<Q, Index, 2>, 2>(c, o);
     else if(b == 3) run_sparse<SparseVectorBlocked<Q, Index, 3>, 3>(c, o);
+    else o << "BAD-OP";
+    return;
+  }
+  if(k.op == "svs")
+  {
+    std::size_t b = c.idx();
+    if(b == 0) run_sparse_script<SparseVector<Q, Index>, 0>(c, o);
+    else if(b == 1) run_sparse_script<SparseVectorBlocked<Q, Index, 1>, 1>(c, o);
+    else if(b == 2) run_sparse_script<SparseVectorBlocked<Q, Index, 2>, 2>(c, o);
+    else if(b == 3) run_sparse_script<SparseVectorBlocked<Q, Index, 3>, 3>(c, o);
     else o << "BAD-OP";
     return;
   }
